@@ -1,8 +1,8 @@
 /-
 Driver of the C04 section of the oracle.
 
-  @ C04 slice <cmp> v…       Slice[int] from FromSlice(v…)      ops: push pop peek len rm fix set setfix popall
-  @ C04 heap <cmp>           two Heap[int] (A, B) from New(0,·) ops: init initc push pushe pop peek len rm fix setv setfix popall
+  @ C04 slice <cmp> v…       Slice[int] from FromSlice(v…)      ops: push pop peek len rm fix set setfix popall popalln
+  @ C04 heap <cmp>           two Heap[int] (A, B) from New(0,·) ops: init initc push pushe pop peek len rm fix setv setfix popall popalln
   @ C04 generic <cmp> v…     recording container holding v…     ops: init push pop rm fix set
 
 After every operation the whole observable state is printed: `Slice.Values` / `Len()` of both
@@ -48,6 +48,9 @@ def parseSOp (ts : List String) : Option SOp :=
   | ["fix", i] => do pure (.fix (← i.toInt?))
   | ["setfix", i, v] => do pure (.setFix (← i.toNat?) (← v.toInt?))
   | ["popall"] => pure .popAll
+  | ["popalln", k] => do
+    let k ← k.toNat?
+    if k = 0 then none else pure (.popAllN k)
   | _ => none
 
 def sliceStep (cmp : Int → Int → Bool) (s : List Int) (ts : List String) :
@@ -89,11 +92,12 @@ def showElem : Option Nat → String
   | none => "nil"
   | some e => toString e
 
-def showRet : HRet → String
+def showRet (m : HMem) : HRet → String
   | .unit => "ok"
   | .handle e => showElem e
   | .len n => toString n
   | .vals xs => showInts xs
+  | .popped es => showInts (es.map m.val.get)   -- the values the iterator yielded
 
 /-- One line → one client call (`HOp`), or the bare field write `setv e v` (`e.Value = v`
 without a `Fix`; the generator follows it by `fix` on the owner). `init` passes the comparator of
@@ -125,6 +129,9 @@ def parseHOp (cmp : Int → Int → Bool) (m : HMem) (ts : List String) : Option
     let h ← parseHeap h; let e ← parseElem m e; let v ← v.toInt?
     pure (.setFix h e v)
   | ["popall", h] => do pure (.popAll (← parseHeap h))
+  | ["popalln", h, k] => do
+    let h ← parseHeap h; let k ← k.toNat?
+    if k = 0 then none else pure (.popAllN h k)
   | _ => none
 
 def heapStep (cmp : Int → Int → Bool) (st : HState) (ts : List String) :
@@ -136,7 +143,7 @@ def heapStep (cmp : Int → Int → Bool) (st : HState) (ts : List String) :
     pure (some ({ st with m := m1 }, s!"ok | {m1.dump}"))
   | _ => do
     let op ← parseHOp cmp st.m ts
-    pure ((stepH st op).map fun (st1, r) => (st1, s!"{showRet r} | {st1.m.dump}"))
+    pure ((stepH st op).map fun (st1, r) => (st1, s!"{showRet st1.m r} | {st1.m.dump}"))
 
 def runHeap (hdr ops : List String) : List String :=
   match hdr with
